@@ -337,9 +337,8 @@ def generate(rng, tier):
     thorough = tier == "thorough"
     g = Gen()
     expected = {}
-    dmax = 4 if thorough else 3
     gen_iterators(g, thorough)
-    for d in range(1, dmax + 1):
+    for d in range(1, 5):
         cp = canon_parts(d)
         base = [((0,) * d, ps) for ps in cp]
         star = star_of_origin(d)
@@ -352,25 +351,31 @@ def generate(rng, tier):
         for kind, cls in (("affine", "diag"), ("affine", "int"), ("affine", "dyadic"), ("chg", "int"), ("matrix", "int"), ("chg", "diag")):
             gen_affine(g, rng, d, cp, kind, cls, expected, thorough)
         gen_coxeter(g, rng, d, cp, expected, thorough)
-    # beyond the range of the bounded theorems: samples in higher ambient dimension
+    # beyond the range of the bounded theorems: ambient dimension 5 (complete in the thorough tier), samples in 6
     for d in ((5, 6) if thorough else (5,)):
-        sample = [random_parts(rng, d) for _ in range(24 if thorough else 10)]
-        sample = [ps for ps in sample if d < 6 or len(ps) >= 3]
-        gen_perm(g, rng, d, [(rand_vertex(rng, d), ps) for ps in sample], None, [(0,) * d])
+        if d == 5 and thorough:
+            sample = list(canon_parts(5))
+            simplices = [((0,) * d, ps) for ps in sample]
+        else:
+            sample = [random_parts(rng, d) for _ in range(24 if thorough else 12)]
+            sample = [ps for ps in sample if d < 6 or len(ps) >= 3]
+            simplices = [(rand_vertex(rng, d), ps) for ps in sample]
+        gen_perm(g, rng, d, simplices, None, [(0,) * d])
         S = []
-        for ps in sample[:6]:
+        for ps in (rng.sample(sample, 40) if len(sample) > 40 else sample[:6]):
             for j in range(len(ps)):
                 v = [0] * d
                 for p in ps[:j]:
                     for i in p:
                         v[i] -= 1
                 S.append((tuple(v), ps))
-        gen_pairs(g, rng, d, S, 1500)
-        gen_locate_freud(g, rng, d, sample + [random_parts(rng, d) for _ in range(20)], False, expected)
-        gen_affine(g, rng, d, sample, "affine", "int", expected, False)
-        gen_coxeter(g, rng, d, sample + [random_parts(rng, d) for _ in range(20)], expected, False)
-    for d in (8, 12):
-        gen_locate_freud(g, rng, d, [random_parts(rng, d) for _ in range(12)], False, expected)
+        gen_pairs(g, rng, d, S, 40000 if thorough else 1500)
+        extra = [random_parts(rng, d) for _ in range(20)]
+        gen_locate_freud(g, rng, d, (sample if len(sample) < 200 else rng.sample(sample, 200)) + extra, False, expected)
+        gen_affine(g, rng, d, sample if len(sample) < 200 else rng.sample(sample, 200), "affine", "int", expected, False)
+        gen_coxeter(g, rng, d, (sample if len(sample) < 200 else rng.sample(sample, 200)) + extra, expected, False)
+    for d in ((8, 12, 16) if thorough else (8, 12)):
+        gen_locate_freud(g, rng, d, [random_parts(rng, d) for _ in range(30 if thorough else 12)], False, expected)
     return g, expected
 
 
@@ -475,8 +480,8 @@ def check(ctx, replay=None):
     if alll:
         res.samples = [{"group": alll[i][0], "line": alll[i][1]} for i in sorted(ctx.rng.sample(range(len(alll)), min(8, len(alll))))]
     res.notes.append("exhaustive sub-domains this run: all canonical simplices with a fixed minimal vertex and all simplices of the star of the "
-                     "origin for ambient dimension <= %d; all ordered pairs of star simplices for is_face_of%s" % (
-                         4 if ctx.tier == "thorough" else 3, "" if ctx.tier == "thorough" else " (d<=3)"))
+                     "origin for ambient dimension <= 4%s; all ordered pairs of star simplices for is_face_of for d <= %d" % (
+                         " and all simplices with a fixed minimal vertex for d = 5" if ctx.tier == "thorough" else "", 4 if ctx.tier == "thorough" else 3))
     return core.finish(ctx, None, res, TRUSTED, ASSUMPTIONS, LEVEL,
                        "cd /verif/coq && make -f Makefile.coq Properties_C20.vo  (coqc 8.16.1; Print Assumptions after every theorem)",
                        correspondence_name=CORRESPONDENCE)
